@@ -37,6 +37,11 @@
      PathsDisjoint distinct leaf paths of a struct designate disjoint bits
                 (union members overlap, that is what a union is).
 
+   Objects with temporary lifetime (a call returning an aggregate, addressed through a decayed array
+   member until the end of the full expression, 6.2.4p8) obey the same two clauses - live objects are
+   disjoint and keep their values; they are created by calls, not declarations, and are modelled in
+   Temps.tla.
+
    Level I in this module: chibicc's byte loop for aggregates (store(),
    `for i < size`) against CopyAgg (CopyLoop = TRUE .. bound `Bound`).  The
    bit-field shift pair / mask-merge, assign_lvar_offsets and the alloca
